@@ -322,3 +322,50 @@ Definition store_immutable (s : astore) : bool :=
 (* annotated array types of validated_types.py: name, classification of the value returned by its converter *)
 Definition converter_immutable (c : string * asrc) : bool :=
   match snd c with SImmutableArray => true | _ => false end.
+
+(* ---- the converters of validated_types.py and the index arrays --------------------------------------------------- *)
+(* A converter does np.array(x, ndmin = k) and then _check_ndim(.., k): an input with more than k dimensions is rejected
+   (a missing entry or None in the generated table array_ndims = the converter does not check).  [dims] lists, for every array
+   field given in the dictionary, its array type and the number of dimensions of the value given. *)
+Definition ndim_ok (tbl : list (string * option nat)) (d : string * nat) : bool :=
+  match find (fun e : string * option nat => String.eqb (fst e) (fst d)) tbl with
+  | Some (_, Some k) => Nat.leb (snd d) k
+  | Some (_, None) => true
+  | None => false                      (* an array type the table does not know *)
+  end.
+Definition dims_ok (tbl : list (string * option nat)) (dims : list (string * nat)) : bool := forallb (ndim_ok tbl) dims.
+
+(* the index arrays: gradient.samplers (one sampler per variable), objectives.realization_filters / function_estimators (one
+   per objective), nonlinear_constraints.realization_filters / function_estimators (one per constraint) *)
+Record indices := {
+  i_samplers : option (list Z);
+  i_obj_filters : option (list Z); i_obj_estimators : option (list Z);
+  i_nl_filters : option (list Z); i_nl_estimators : option (list Z)
+}.
+
+(* broadcast_1d_array(indices, name, size) in ObjectiveFunctionsConfig._broadcast_and_normalize (size = weights.size),
+   NonlinearConstraintsConfig._broadcast_and_check (size = lower_bounds.size after the broadcast of the bounds) and
+   GradientConfig.fix_perturbations (size = number of variables) *)
+Definition nonlinear_count (c : config) : nat := match c_nonlin c with Some nl => length (n_lower nl) | None => 0%nat end.
+
+Definition validate_indices (V nobj nnl : nat) (ix : indices) : outcome indices :=
+  orf <- omap (broadcast1 nobj) (i_obj_filters ix) ;;
+  ofe <- omap (broadcast1 nobj) (i_obj_estimators ix) ;;
+  nrf <- omap (broadcast1 nnl) (i_nl_filters ix) ;;
+  nfe <- omap (broadcast1 nnl) (i_nl_estimators ix) ;;
+  smp <- omap (broadcast1 V) (i_samplers ix) ;;
+  Ok {| i_samplers := smp; i_obj_filters := orf; i_obj_estimators := ofe; i_nl_filters := nrf; i_nl_estimators := nfe |}.
+
+(* EnOptConfig.model_validate of a dictionary: field conversions first, then the validators *)
+Definition validate_full (E : enums) (tbl : list (string * option nat)) (ctx : option scaler) (nls : option (list Q))
+    (dims : list (string * nat)) (ix : indices) (raw : config) : outcome (config * indices) :=
+  _ <- guard (dims_ok tbl dims) ;;
+  c <- validate E ctx nls raw ;;
+  ix' <- validate_indices (length (v_initial (c_vars c))) (length (c_obj_w c)) (nonlinear_count c) ix ;;
+  Ok (c, ix').
+
+Definition ozlist_eqb (a b : option (list Z)) : bool := option_eqb zlist_eqb a b.
+Definition indices_eqb (a b : indices) : bool :=
+  ozlist_eqb (i_samplers a) (i_samplers b) && ozlist_eqb (i_obj_filters a) (i_obj_filters b)
+  && ozlist_eqb (i_obj_estimators a) (i_obj_estimators b) && ozlist_eqb (i_nl_filters a) (i_nl_filters b)
+  && ozlist_eqb (i_nl_estimators a) (i_nl_estimators b).
